@@ -343,8 +343,10 @@ theorem C12_json_source_options :
 
 /-- **`json.loads(json.dumps(v, indent=…, ensure_ascii=…)) == v`**, same types, same dict order — for every layout (every
     `indent`, or none), with and without `ensure_ascii`, every nesting depth, every size, every value built from `None`, bools,
-    ints, strs, lists and dicts with distinct str keys whose strings are Python strs (control characters, line terminators,
-    astral characters and LONE surrogates included) without a high surrogate immediately followed by a low one. -/
+    ints, floats, strs, lists and dicts with distinct str keys whose strings are Python strs (control characters, line
+    terminators, astral characters and LONE surrogates included) without a high surrogate immediately followed by a low one.
+    A float is the TEXT that denotes it (`FT`; `float.__repr__` writes such a text, the scanner returns the text it read): that
+    `float(repr(x)) == x` is CPython's guarantee, outside this model. -/
 theorem C12_json_roundtrip (o : Opts) (v : JV) (h : v.ok = true) : parse (render o 0 v) = .ok v :=
   parse_render_top o v h
 
@@ -355,8 +357,8 @@ theorem C12_json_surrogate_pair_witness :
 
 /-- with `ensure_ascii` the text consists of printable ASCII and line feeds: no carriage return (so no newline mode can
     change it) and nothing a text codec could refuse -/
-theorem C12_json_text_ascii (L : Layout) (v : JV) : ∀ c ∈ render ⟨L, true⟩ 0 v, c = 10 ∨ (32 ≤ c ∧ c ≤ 126) :=
-  render_ascii L v 0
+theorem C12_json_text_ascii (L : Layout) (v : JV) (hv : v.ok = true) : ∀ c ∈ render ⟨L, true⟩ 0 v, c = 10 ∨ (32 ≤ c ∧ c ≤ 126) :=
+  render_ascii L v 0 hv
 
 /-- `json.dump(value, file, <the source's options>)` / `json.load(file)` on the values of the domain -/
 def jsonSer : TextSer {v : JV // v.ok = true} where
@@ -377,7 +379,7 @@ theorem jsonGenOpts_ascii : jsonGenOpts = ⟨jsonGenOpts.layout, true⟩ := by
   simp [jsonGenOpts, this]
 
 theorem jsonSer_ascii (v : {v : JV // v.ok = true}) : ∀ c ∈ render jsonGenOpts 0 v.1, c = 10 ∨ (32 ≤ c ∧ c ≤ 126) := by
-  rw [jsonGenOpts_ascii]; exact render_ascii _ v.1 0
+  rw [jsonGenOpts_ascii]; exact render_ascii _ v.1 0 v.2
 
 theorem jsonSer_noCR : jsonSer.NoCR := by
   intro v chunks h
@@ -492,6 +494,16 @@ example : Uberjob.Json.render ⟨.indent 4, true⟩ 0 (.arr (.cons (.int 1) (.co
     = [91, 10, 32, 32, 32, 32, 49, 44, 10, 32, 32, 32, 32, 34, 92, 117, 48, 48, 101, 57, 34, 10, 93] := by
   simp [Uberjob.Json.render, Uberjob.Json.renderItems, Uberjob.Json.Layout.gap, Uberjob.Json.Layout.sgap, Uberjob.Json.nl, Uberjob.Json.encStr,
     Uberjob.Json.escChar, Uberjob.Json.uEsc, Uberjob.Json.hex4, Uberjob.Json.hexDigit, Uberjob.Json.encInt, Uberjob.Json.natDigits, List.replicate]
+-- floats travel as their text: 1.5, -2.5e-07, 1e+300, 0.0 in a list
+example : Uberjob.Json.parse (Uberjob.Json.render jsonGenOpts 0 (.arr (.cons (.float ⟨false, 1, [53], none⟩)
+    (.cons (.float ⟨true, 2, [53], some (101, some 45, [48, 55])⟩) (.cons (.float ⟨false, 1, [], some (101, some 43, [51, 48, 48])⟩)
+    (.cons (.float ⟨false, 0, [48], none⟩) .nil))))))
+    = .ok (.arr (.cons (.float ⟨false, 1, [53], none⟩)
+    (.cons (.float ⟨true, 2, [53], some (101, some 45, [48, 55])⟩) (.cons (.float ⟨false, 1, [], some (101, some 43, [51, 48, 48])⟩)
+    (.cons (.float ⟨false, 0, [48], none⟩) .nil))))) :=
+  C12_json_roundtrip _ _ (by decide)
+example : Uberjob.Json.parse [49, 46, 53, 69, 50] = .ok (.float ⟨false, 1, [53], some (69, none, [50])⟩) := by decide
+example : Uberjob.Json.parse [49, 46] = .error .syntax ∧ Uberjob.Json.parse [49, 101, 43] = .error .syntax := by decide
 -- a duplicate key in the FILE: the later value, at the first position (what a Python dict does)
 example : Uberjob.Json.parse [123, 34, 97, 34, 58, 49, 44, 34, 98, 34, 58, 50, 44, 34, 97, 34, 58, 51, 125]
     = .ok (.obj (.cons [97] (.int 3) (.cons [98] (.int 2) .nil))) := by decide
